@@ -4,6 +4,7 @@ import (
 	"fmt"
 	"go/constant"
 	"go/token"
+	"go/types"
 
 	"dtnverif/core"
 
@@ -367,6 +368,54 @@ func checkMailboxAtomicity(p *core.Program, r *core.Report) {
 				r.Check(same, key, rule, p.Pos(b.in.Pos()), "both inside one exclusive region", fmt.Sprintf("Load at %s and %s are not in one exclusive region (held at load %s, at write %s)", p.Pos(a.in.Pos()), b.kind, ls.HeldNames(a.in), ls.HeldNames(b.in)))
 			}
 		}
+	}
+	// ownership: what a function hands out of the mailbox must not stay reachable from the mailbox
+	for _, fn := range p.RepoFuncs() {
+		var loads []ssa.CallInstruction
+		for _, c := range core.CallsTo(fn, "sync.Map.Load") {
+			if isRestAgentField(core.CallRecv(c)) {
+				loads = append(loads, c)
+			}
+		}
+		if len(loads) == 0 {
+			continue
+		}
+		fromLoad := func(v ssa.Value) bool {
+			for _, l := range loads {
+				if v == l.(ssa.Value) {
+					return true
+				}
+				if ex, ok := v.(*ssa.Extract); ok && ex.Tuple == l.(ssa.Value) {
+					return true
+				}
+			}
+			return false
+		}
+		escapes := false
+		for i := 0; i < fn.Signature.Results().Len(); i++ {
+			for _, rv := range core.ReturnValues(fn, i) {
+				if _, isSlice := rv.V.Type().Underlying().(*types.Slice); isSlice && core.DependsOn(rv.V, fromLoad) {
+					escapes = true
+				}
+			}
+		}
+		core.EachInstr(fn, func(in ssa.Instruction) {
+			if st, ok := in.(*ssa.Store); ok {
+				if _, isSlice := st.Val.Type().Underlying().(*types.Slice); isSlice && pathEndsWith(st.Addr, "Bundles") && core.DependsOn(st.Val, fromLoad) {
+					escapes = true
+				}
+			}
+		})
+		if !escapes {
+			continue
+		}
+		bad := ""
+		for _, c := range core.CallsTo(fn, "sync.Map.Store") {
+			if isRestAgentField(core.CallRecv(c)) && core.DependsOn(core.CallArgs(c)[1], fromLoad) {
+				bad = "the slice handed to the caller is (a reslice of) what is stored back into the mailbox at " + p.Pos(c.Pos()) + ": a later delivery appends into the backing array the caller still reads"
+			}
+		}
+		r.Check(bad == "", "no-alias/"+fname(fn)+"/mailbox", "bundles handed out of a mailbox are no longer reachable from it (the entry is deleted or replaced by a fresh slice), so a delivery racing with the response cannot overwrite or duplicate them", p.Pos(fn.Pos()), "", bad)
 	}
 	r.Min("mailbox read-modify-write sequences", 2)
 	r.Count("mailbox read-modify-write sequences", nRMW)
